@@ -900,14 +900,70 @@ fn panic_msg(p: &str) -> String {
     p.splitn(2, ": ").nth(1).unwrap_or(p).to_string()
 }
 
+/// the no-panic guarantee speaks about trees a type checker can emit: operator nodes with the operand count
+/// the operator takes, enum operands not mixed with operands of another type, `~` on an integer.
+/// (Written from the property text; the Lean theorem has the same hypothesis, stated independently.)
+pub fn admissible(x: &X) -> bool {
+    match x {
+        X::Cast(_, e) => admissible(e),
+        X::Op(op, args) => {
+            if !args.iter().all(admissible) {
+                return false;
+            }
+            let unary = UNARY_OPS.contains(&op.as_str());
+            let binary = BINARY_OPS.contains(&op.as_str());
+            if (unary && args.len() != 1) || (binary && args.len() != 2) {
+                return false;
+            }
+            // operands are evaluated left to right up to the first one without a value
+            let mut vals = Vec::new();
+            for a in args {
+                match reference(a) {
+                    Want::Val(v) | Want::ValOrNotConst(v) => vals.push(v),
+                    // an operand the property does not speak about: its kind is unknown
+                    Want::Unspecified(_) => return false,
+                    Want::NotConst => break,
+                }
+            }
+            let id = |k: &K| match k {
+                K::Enum(i, _) => Some(*i),
+                _ => None,
+            };
+            if let Some(first) = vals.first() {
+                if vals.iter().any(|v| id(v) != id(first)) {
+                    return false;
+                }
+            }
+            let nested = |k: &K| matches!(k, K::Enum(_, inner) if matches!(**inner, K::Enum(_, _)));
+            if vals.iter().any(nested) {
+                return false;
+            }
+            if op == "BitwiseNot" {
+                let int_like = |k: &K| {
+                    let k = match k {
+                        K::Enum(_, inner) => &**inner,
+                        o => o,
+                    };
+                    matches!(k, K::Lit(_) | K::I32(_) | K::U32(_))
+                };
+                if !vals.iter().all(int_like) {
+                    return false;
+                }
+            }
+            true
+        }
+        X::Lit(K::Enum(_, inner)) => !matches!(**inner, K::Enum(_, _)),
+        X::EnumVal(_, inner) => !matches!(inner, K::Enum(_, _)),
+        X::Var(Some(K::Enum(_, inner))) | X::Global(Some(K::Enum(_, inner))) => !matches!(**inner, K::Enum(_, _)),
+        _ => true,
+    }
+}
+
 /// verdict of the property's oracle on one observation
 pub fn judge(x: &X, obs: &Obs, from_typer: bool) -> String {
     let want = reference(x);
     match (obs, &want) {
-        (Obs::Panic(p), Want::Unspecified(_)) if !from_typer => {
-            let _ = p;
-            "ok".into()
-        }
+        (Obs::Panic(_), _) if !from_typer && !admissible(x) => "ok".into(),
         (Obs::Panic(p), _) => format!("FAIL:panic {}", p),
         (_, Want::Unspecified(_)) => "ok".into(),
         (Obs::Val(k), Want::Val(w)) | (Obs::Val(k), Want::ValOrNotConst(w)) => {
@@ -1711,7 +1767,7 @@ pub fn run(args: &Args, out: &mut Out) {
     }
     let mut rng = Rng::new(args.seed);
     let thorough = args.thorough();
-    let scale = args.n.unwrap_or(if thorough { 20 } else { 1 });
+    let scale = args.n.unwrap_or(if thorough { 60 } else { 1 });
     let mut direct = Hist::default();
     let mut wild = Hist::default();
     let mut typed = Hist::default();
